@@ -900,10 +900,22 @@ func c01R5(c *Check, R *Roles) {
 			c.Pass(serverLoopRule, key, where, "returns no verdict (nil response): Envoy's failure policy decides")
 			continue
 		}
-		leaves := Leaves(v, leafOpts{})
+		// every value the returned response can be, with the facts that hold where that value is chosen (a
+		// response picked in a branch and returned after the join keeps the branch's justification)
+		type leafFacts struct {
+			l  ssa.Value
+			fs FactSet
+		}
+		var leaves []leafFacts
+		for _, a := range phiAlternatives(fn, v, r) {
+			afs := unionFacts(fs, a.Facts)
+			for _, l := range Leaves(a.V, leafOpts{}) {
+				leaves = append(leaves, leafFacts{l, afs})
+			}
+		}
 		okAll, why := true, ""
-		for _, l := range leaves {
-			l = resolveCell(l)
+		for _, lf := range leaves {
+			l, fs := resolveCell(lf.l), lf.fs
 			switch {
 			case isNilConst(l):
 				why += "nil; "
